@@ -212,6 +212,14 @@ theorem convertArray_ok_iff (xs : List ℚ) (a b : Unit ℚ) :
   rw [convertArray_eq_map]
   by_cases hd : a.dim = b.dim <;> simp [hd]
 
+/-- **Held results**: the results of a sequence of conversions are the conversions of the individual requests — a
+later call has no influence on an earlier result (the model is a function; the HOLD streams of the harness check that the
+arrays / `EngVal`s the Python code hands out behave like that: no shared or re-used storage). -/
+theorem convertArray_results_independent (reqs : List (List ℚ × Unit ℚ × Unit ℚ)) (i : Nat) (h : i < reqs.length) :
+    (reqs.map (fun r => convertArray r.1 r.2.1 r.2.2))[i]'(by simpa using h) =
+      convertArray reqs[i].1 reqs[i].2.1 reqs[i].2.2 := by
+  simp
+
 example : convertArray [0, 100] exDegC exDegF = .ok [32, 212] := by decide +kernel
 example : convertArrayInplace [12, 24] exFeet exInch = .ok [144, 288] := by decide +kernel
 example : convertArray [1] exFeet exDegC = .error .unitsDimension := by decide +kernel
